@@ -420,6 +420,85 @@ func vC09Scenario(name string, seed uint64) string {
 			return "call-in-flight-hangs-across-close"
 		}
 		return w.aftermath(took, bound)
+	case "session-lost-while-call-is-being-prepared":
+		// the session is lost, and cannot be re-established for the moment, after a call has passed its state check and
+		// registered itself and before it fetches the transport: the call returns at once with an error, leaves no record,
+		// nothing is wedged, the connection comes back and closes
+		w, err := vC09Setup(r)
+		if err != nil || !w.ready() {
+			return "setup"
+		}
+		const at = "ClientConn.Invoke#RLock#3"
+		verifrt.Start(nil)
+		verifrt.Hold(at, 1)
+		res := make(chan error, 1)
+		go func() {
+			ctx, cn := context.WithTimeout(context.Background(), 2*time.Second)
+			defer cn()
+			res <- w.cc.Invoke(ctx, "Echo", vAppMsg("p", nil, ""), &message.Response{})
+		}()
+		if !vWaitUntil(3*time.Second, func() bool { return verifrt.Held(at) >= 1 }) {
+			verifrt.Release(at)
+			verifrt.Stop()
+			return "gate-script-infeasible/call-not-held"
+		}
+		w.px.SetTarget("127.0.0.1:1")
+		w.px.CutAll()
+		gone := vWaitUntil(3*time.Second, func() bool {
+			ac := w.cc.addrConn
+			ac.mu.RLock()
+			defer ac.mu.RUnlock()
+			return ac.transport == nil
+		})
+		released := time.Now()
+		verifrt.Release(at)
+		if !gone {
+			verifrt.Stop()
+			return "gate-script-infeasible/session-not-lost"
+		}
+		select {
+		case err := <-res:
+			if err == nil {
+				verifrt.Stop()
+				return "call-succeeds-without-a-session"
+			}
+			if d := time.Since(released); d > 500*time.Millisecond {
+				verifrt.Stop()
+				return fmt.Sprintf("call-without-a-session-does-not-fail-at-once/%v", d)
+			}
+		case <-time.After(4 * time.Second):
+			verifrt.Stop()
+			return "call-hangs-after-session-lost/" + strings.Join(vParked(), ",")
+		}
+		verifrt.Stop()
+		w.cc.mu.RLock()
+		left := len(w.cc.methodCalls)
+		w.cc.mu.RUnlock()
+		if left != 0 {
+			return fmt.Sprintf("pending-record-left-after-call-returned/%d", left)
+		}
+		t1 := time.Now()
+		ctx2, cn2 := context.WithTimeout(context.Background(), 300*time.Millisecond)
+		_ = w.cc.Invoke(ctx2, "Echo", vAppMsg("q", nil, ""), &message.Response{})
+		cn2()
+		if d := time.Since(t1); d > time.Second {
+			return fmt.Sprintf("later-call-wedged/%v", d)
+		}
+		w.px.SetTarget(w.ls.Addr)
+		if !vWaitUntil(10*time.Second, func() bool { return w.cc.GetState() == connectivity.Ready }) {
+			return "does-not-return-to-ready/" + w.cc.GetState().String()
+		}
+		ctx3, cn3 := context.WithTimeout(context.Background(), 2*time.Second)
+		err3 := w.cc.Invoke(ctx3, "Echo", vAppMsg("r", nil, ""), &message.Response{})
+		cn3()
+		if err3 != nil {
+			return "call-fails-after-recovery/" + err3.Error()
+		}
+		start := time.Now()
+		if !vClose(w.cc, 6*time.Second) {
+			return "close-hangs/" + strings.Join(vParked(), ",")
+		}
+		return w.aftermath(time.Since(start), bound)
 	case "close-after-dial-context-ended-and-connection-lost":
 		// the context given to DialWithContext ends after the connection is up (the documented `defer cancel()`), then the
 		// connection is lost, then Close: Close must still return and leave nothing behind
@@ -609,6 +688,11 @@ func TestVerifC08Closed(t *testing.T) {
 
 func TestVerifC09(t *testing.T) {
 	vC09Run(t, vC09Names, "close/", 9)
+}
+
+// C02 / C14: the session is lost while a call is being prepared
+func TestVerifLostWhilePreparing(t *testing.T) {
+	vC09Run(t, []string{"session-lost-while-call-is-being-prepared"}, "lost/", 21)
 }
 
 func vC09Run(t *testing.T, names []string, class string, salt uint64) {
